@@ -269,6 +269,9 @@ func checkC03(c *Check) {
 	// by the rules of C10.R1 (each limit applied only when its timeout is > 0, against its own timestamp)
 	if c.ID == "C03" {
 		importObls(c, "C10", checkC10, "C03.R2", func(o *Obligation) bool { return strings.HasPrefix(o.Key, "C10.R1/predicate") })
+		// the callback reaches the OIDC filter: a path that some trigger rule includes is checked whatever another rule
+		// excludes (decision shape of C07.R3)
+		importObls(c, "C07", checkC07, "C03.R8", func(o *Obligation) bool { return strings.HasPrefix(o.Key, "C07.R3/") })
 	}
 
 	// ---- R4
@@ -708,6 +711,14 @@ func checkC11(c *Check) {
 		cc, isC := i.(*ssa.Call)
 		return isC && (cc.Common().StaticCallee() == R.AllowFn || isCallTo(cc, mSetToken))
 	}, nil) == nil
+	// … and that redirect removes the stale session before anything else can fail (C05.R1: RemoveSession first, the
+	// fresh id only after it returned nil); a crash-free exchange: the decoded answer is dereferenced only when non-nil
+	if c.ID == "C11" {
+		importObls(c, "C05", checkC05, "C11.R4", func(o *Obligation) bool { return strings.HasPrefix(o.Key, "C05.R1/") })
+		importObls(c, "C15", checkC15, "C11.R3", func(o *Obligation) bool {
+			return strings.HasPrefix(o.Key, "C15.R2/deref/") && (strings.Contains(o.Key, "refreshToken") || strings.Contains(o.Key, "performIDPRequest") || strings.Contains(o.Key, "isValidIDP"))
+		})
+	}
 	c.Obl(len(region) > 0 && redirOK && noAllow, "C11.R4", "failure-relogin", P.Pos(site.Pos()), "failed refresh ⇒ login redirect with the presented session id (stale session removed), never allow/store",
 		"a failed refresh does not lead to the login redirect for the presented session id")
 	// non-nil ⇒ SetTokenResponse(sid, same) then allow(same)
